@@ -43,6 +43,9 @@ def parent_spec(position, path, u_parent, team_targets_sub=False):
         names = ["A0", "C0", "B0", "Z0"]
         return {"tasks": tasks, "links": links, "unit_min": u_parent,
                 "teams": [{"name": "TM0", "targets": [0, 1, 2, 4], "workers": [{"name": "W%d" % i, "skills": {n: 1.0}, "cost": 1.0} for i, n in enumerate(names)]}]}
+    elif position == "two-tails":
+        # P0 -> SUB (due 12) and P0 -> Q0 (due 9): two tail tasks with different due times (used with the backward run)
+        tasks, links, tg = [{"name": "P0", "work": 2.0}, dict(sub, due=12), {"name": "Q0", "work": 1.0, "due": 9}], [[0, 1, "FS"], [0, 2, "FS"]], [0, 2]
     elif position == "before-succ":
         tasks, links, tg = [sub, {"name": "Q0", "work": 1.0}], [[0, 1, "FS"]], [1]
     else:  # beside a worked task
@@ -180,6 +183,22 @@ def one(tmpdir, d, absence, how, remove, u_sub, u_parent, position, tag, prior=N
         elif prog != list(range(start, start + want)):
             out.append(("C20:sub-project-task-progress-steps-wrong-with-absence-and-auto-flag", det))
         return out, want
+    if extra == "backward-due":
+        # backward run with the due times of the tail tasks considered: the tail with the latest due time ends with the run
+        try:
+            m.project.backward_simulate(max_time=MT, considering_due_time_of_tail_tasks=True, absence_time_list=[])
+        except Exception as e:
+            return out + [("C20:parent-backward_simulate-raised:%s" % type(e).__name__, {"error": repr(e)})], None
+        want = int(math.ceil(dur * u_sub / float(u_parent) - 1e-9))
+        log = [int(s) for s in t.state_record_list]
+        ks = [k for k, s in enumerate(log) if s == S.T_WORKING]
+        T = m.project.time
+        det = {"sub_duration": dur, "u_sub": u_sub, "u_parent": u_parent, "log": log, "expected_steps": want, "time": T}
+        if int(m.project.status) != 1:
+            out.append(("C20:parent-did-not-complete", det))
+        elif ks != list(range(T - want, T)):
+            out.append(("C20:sub-project-task-not-at-the-end-of-the-backward-run(latest-due-tail)", det))
+        return out, want
     if extra == "failed-backward":
         # a backward run that is refused with an exception (undocumented task_performed_mode) precedes the forward run
         try:
@@ -219,6 +238,32 @@ def one(tmpdir, d, absence, how, remove, u_sub, u_parent, position, tag, prior=N
     return out, want
 
 
+def one_chain(tmpdir, d, u_sub, u_parent, n, tag):
+    """n sub-project tasks configured from one saved result, FF-chained against their list order (S_i waits for S_i+1): all run out of work in the same
+    step and have to be finished in that step, one after the other"""
+    out = []
+    path, sub_time, sub_status = make_sub(tmpdir, d, (), "success", u_sub, tag)
+    tasks = [{"name": "SUB%d" % i, "work": 1.0, "sub": {"file_path": path}} for i in range(n)]
+    sp = {"tasks": tasks, "links": [[i + 1, i, "FF"] for i in range(n - 1)], "unit_min": u_parent, "teams": []}
+    m = S.build(sp)
+    for t in m.tasks:
+        t.set_all_attributes_from_json(remove_absence_time_list=False)
+        t.set_work_amount_progress_of_unit_step_time(m.project.unit_timedelta)
+    want = int(math.ceil(d * u_sub / float(u_parent) - 1e-9))
+    try:
+        m.project.simulate(max_time=want + 30, absence_time_list=[])
+    except Exception as e:
+        return [("C20:parent-simulate-raised:%s" % type(e).__name__, {"error": repr(e)})], want
+    bad = []
+    for t in m.tasks:
+        ks = [k for k, s in enumerate(int(s_) for s_ in t.state_record_list) if s == S.T_WORKING]
+        if ks != list(range(0, want)):
+            bad.append((t.ID, ks))
+    if bad or int(m.project.status) != 1:
+        out.append(("C20:sub-project-task-WORKING-steps-not-ceil(duration*unit-ratio):FF-chain-of-%d" % n, {"expected_steps": want, "tasks_with_other_steps": bad[:4], "time": m.project.time}))
+    return out, want
+
+
 def work(chunk):
     col = engines.Collector()
     tmpdir = tempfile.mkdtemp(prefix="verif-c20-")
@@ -229,7 +274,10 @@ def work(chunk):
             parent_abs = case[9] if len(case) > 9 else None
             extra = case[10] if len(case) > 10 else None
             tag = "%d" % os.getpid()
-            got, want = one(tmpdir, d, absence, how, remove, u_sub, u_parent, position, tag, prior, via_json, parent_abs, extra)
+            if position == "ff-chain":
+                got, want = one_chain(tmpdir, d, u_sub, u_parent, int(extra), tag)
+            else:
+                got, want = one(tmpdir, d, absence, how, remove, u_sub, u_parent, position, tag, prior, via_json, parent_abs, extra)
             key = (d, tuple(absence), how, remove, u_sub, u_parent, position, prior, via_json, tuple(parent_abs) if parent_abs else None, extra)
             col.evaluations += 1
             col.checks["c20." + how] += 1
@@ -305,6 +353,10 @@ def items(tier):
                     for remove in (True, False):
                         for us, up in ((1, 1), (3, 2), (2, 5)):
                             out.append((dl, ab, "success", remove, us, up, "after-pred", None))
+        for us, up in ((1, 1), (3, 2), (2, 3)):
+            out.append((d, (), "success", True, us, up, "two-tails", None, False, None, "backward-due"))
+            for nchain in (3, 8, 9, 11):
+                out.append((d, (), "success", False, us, up, "ff-chain", None, False, None, str(nchain)))
         for how in ("failure", "never"):
             for remove in (True, False):
                 out.append((d, (), how, remove, 1, 1, "alone", None))
@@ -335,7 +387,10 @@ def replay(v):
     try:
         c = list(v["case"]) + [False, None, None]
         d, ab, how, remove, us, up, pos, prior, vj, pabs, extra = c[:11]
-        got, want = one(tmpdir, d, tuple(ab), how, remove, us, up, pos, "replay", prior, bool(vj), tuple(pabs) if pabs else None, extra)
+        if pos == "ff-chain":
+            got, want = one_chain(tmpdir, d, us, up, int(extra), "replay")
+        else:
+            got, want = one(tmpdir, d, tuple(ab), how, remove, us, up, pos, "replay", prior, bool(vj), tuple(pabs) if pabs else None, extra)
         return [{"sig": s, "detail": dd} for s, dd in got]
     finally:
         shutil.rmtree(tmpdir, ignore_errors=True)
